@@ -27,6 +27,19 @@
 //! connection of thousands of symbols; (c) merge / forward_to: a consumer that was told `Pending` must be woken
 //! when an item arrives or an input ends (otherwise the item never reaches anybody awaiting the stream).
 //!
+//! Second hardening round - further compositions of the same combinators that the repository itself builds
+//! (`Mode::Account`, `Mode::Builder`, `Mode::MultiBuilder`): (d) barter's account stream, the real
+//! `ExecutionManager::init(.., client, indexer, policy)` over a scripted `ExecutionClient` - attempts are
+//! `account_stream` + `account_snapshot` (either may fail), a connection is the snapshot followed by the updates,
+//! merged with the manager's response channel; the policy handed to `init` must govern the waits; (e) barter-data's
+//! public entry `Streams::builder().subscribe(..).init()` (and the same builder inside `Streams::builder_multi()`):
+//! validate / de-duplicate, `init_market_stream` with the crate's constant policy, a spawned `forward_to` into the
+//! exchange channel, observed at `Streams::select_all()` - with and without a second `subscribe` call for the same
+//! exchange (two connections feeding one exchange channel); (f) a policy whose waits exceed 2^32 ms.
+//!
+//! (g) layer 4: two arms of `DynamicStreams::init` (Binance spot / futures public trades) against a scripted venue on
+//! loopback (real sockets; see `dynamic_exec`).
+//!
 //! The oracle is written from the statement (see `judge`, `merge_exec`, `forward_exec`); where the statement
 //! is silent (is the terminal error itself passed on? how long after a dropped connection is the next attempt
 //! made? are items of the *other* merge input that were ready when one input ended still delivered? does
@@ -57,7 +70,31 @@ use barter_data::{
         trade::{PublicTrade, PublicTrades},
     },
 };
-use barter_instrument::{Side, exchange::ExchangeId, instrument::market_data::kind::MarketDataInstrumentKind};
+use barter::execution::{AccountStreamEvent, manager::ExecutionManager, request::ExecutionRequest};
+use barter_data::streams::{Streams, consumer::STREAM_RECONNECTION_POLICY};
+use barter_execution::{
+    AccountEventKind, UnindexedAccountEvent, UnindexedAccountSnapshot,
+    balance::{AssetBalance, Balance},
+    client::ExecutionClient,
+    error::{ConnectivityError, UnindexedClientError, UnindexedOrderError},
+    indexer::AccountEventIndexer,
+    map::generate_execution_instrument_map,
+    order::{
+        Order,
+        request::{OrderRequestCancel, OrderRequestOpen, UnindexedOrderResponseCancel},
+        state::Open,
+    },
+    trade::Trade,
+};
+use barter_instrument::{
+    Side,
+    asset::{QuoteAsset, name::AssetNameExchange},
+    exchange::{ExchangeId, ExchangeIndex},
+    index::IndexedInstruments,
+    instrument::{InstrumentIndex, market_data::kind::MarketDataInstrumentKind, name::InstrumentNameExchange},
+};
+use barter_integration::snapshot::Snapshot;
+use rust_decimal::{Decimal, prelude::ToPrimitive};
 use barter_integration::{
     Unrecoverable, Validator,
     channel::{Tx, UnboundedTx, mpsc_unbounded},
@@ -111,7 +148,22 @@ pub enum Mode {
     /// `DataError`s (R = `DataError::Socket`, T = `DataError::InvalidSequence`), the termination predicate is
     /// whatever the consumer configures, the notice's origin is the connector's `ExchangeId`
     Market,
+    /// barter's own account-stream composition: the real `ExecutionManager::init(requests, timeout, client, indexer,
+    /// policy)` over a scripted `ExecutionClient` (`ScriptAcct`): every connection attempt is `account_stream` +
+    /// `account_snapshot` (failing attempts fail in the one or the other), a connection is the account snapshot
+    /// followed by the scripted balance updates (words over {I}: the account stream has no error items); the
+    /// reconnecting stream is merged with the manager's response channel; the configured policy must govern the waits
+    Account,
+    /// the public entry of barter-data: `Streams::builder().subscribe([..]).init()` (validate, de-duplicate,
+    /// `init_market_stream(STREAM_RECONNECTION_POLICY, ..)`, a spawned `forward_to` into the exchange channel),
+    /// observed at `Streams::select_all()`; the policy is the crate's constant (125,x2,60000)
+    Builder,
+    /// the same builder added to `Streams::builder_multi()` (a second spawned `forward_to` hop per exchange)
+    MultiBuilder,
 }
+
+/// Position (inside a connection's id space) of the account snapshot that starts every `Mode::Account` connection.
+const SNAP_POS: usize = STRIDE as usize - 1;
 
 /// One execution of layer 1 (this is also the replay artefact).
 #[derive(Debug, Clone, PartialEq, Eq, Hash, Serialize, Deserialize)]
@@ -131,6 +183,19 @@ pub struct Case {
     pub fail_at: Option<usize>,
     /// number of failing attempts observed after the script
     pub extra: usize,
+    /// Builder / MultiBuilder only: a second `subscribe` call for the same exchange runs the fixed `twin_script`
+    /// over its own connection into the same exchange channel
+    #[serde(default)]
+    pub twin: bool,
+}
+
+/// The twin connection (instrument key 1) of the builder modes: one connection that yields an item every
+/// `TWIN_PACE` virtual ms for longer than any observation lasts (so it contributes no notice and no error - those
+/// name the exchange only and could not be told from the main connection's); its ids are shifted by `TWIN_BASE`.
+const TWIN_BASE: u32 = 3_000_000_000;
+const TWIN_PACE: u64 = 50;
+fn twin_script() -> Vec<Option<String>> {
+    vec![Some("I".repeat(STRIDE as usize - 2))]
 }
 
 /// The error type of the scripted connections.
@@ -173,6 +238,10 @@ struct Log {
 struct Shared {
     t0: Instant,
     log: Mutex<Log>,
+    /// builder modes (the reconnecting stream runs in a spawned task, the harness only holds the channel receiver):
+    /// the harness' waker, woken at the start of every connection attempt so that the environment loop notices
+    /// that the script has been consumed
+    poke: Mutex<Option<std::task::Waker>>,
 }
 impl Shared {
     fn now(&self) -> u64 {
@@ -233,6 +302,9 @@ fn attempt(script: &[Option<String>], lat: u64, pace: u64, sh: &Arc<Shared>) -> 
         g.calls.push(Call { start, end: None, ok: false });
         g.calls.len() - 1
     };
+    if let Some(w) = sh.poke.lock().unwrap().as_ref() {
+        w.wake_by_ref();
+    }
     let entry: Option<String> = script.get(k).cloned().flatten();
     let sh = sh.clone();
     Box::pin(async move {
@@ -264,7 +336,7 @@ fn make_init(case: &Case, sh: Arc<Shared>) -> impl Fn() -> InitFut + Send + 'sta
 
 /// A `Connector` whose `MarketStream` is the scripted connection. Nothing of the WebSocket machinery is used:
 /// `init_market_stream` only calls `<Exchange::Stream as MarketStream>::init(&subscriptions)`.
-#[derive(Clone, Default, Debug, Serialize, Deserialize)]
+#[derive(Clone, Default, Debug, PartialEq, Eq, PartialOrd, Ord, Serialize, Deserialize)]
 pub struct ScriptVenue;
 #[derive(Clone, Debug)]
 pub struct VStr(&'static str);
@@ -314,6 +386,23 @@ impl std::fmt::Display for ScriptInst {
         write!(f, "script-{}", self.key)
     }
 }
+// (the builder sorts and de-duplicates subscriptions: instruments are compared by key)
+impl PartialEq for ScriptInst {
+    fn eq(&self, o: &Self) -> bool {
+        self.key == o.key
+    }
+}
+impl Eq for ScriptInst {}
+impl PartialOrd for ScriptInst {
+    fn partial_cmp(&self, o: &Self) -> Option<std::cmp::Ordering> {
+        Some(self.cmp(o))
+    }
+}
+impl Ord for ScriptInst {
+    fn cmp(&self, o: &Self) -> std::cmp::Ordering {
+        self.key.cmp(&o.key)
+    }
+}
 impl InstrumentData for ScriptInst {
     type Key = u32;
     fn key(&self) -> &u32 {
@@ -336,17 +425,18 @@ fn market_error(id: u32, t: bool) -> DataError {
         DataError::Socket(id.to_string())
     }
 }
-pub struct MarketConn(Conn);
+pub struct MarketConn(Conn, u32);
 impl Stream for MarketConn {
     type Item = Result<MarketEvent<u32, PublicTrade>, DataError>;
     fn poll_next(mut self: Pin<&mut Self>, cx: &mut Context<'_>) -> Poll<Option<Self::Item>> {
+        let key = self.1;
         Pin::new(&mut self.0).poll_next(cx).map(|o| {
             o.map(|r| match r {
                 Ok(id) => Ok(MarketEvent {
                     time_exchange: chrono::DateTime::UNIX_EPOCH,
                     time_received: chrono::DateTime::UNIX_EPOCH,
                     exchange: ScriptVenue::ID,
-                    instrument: 0u32,
+                    instrument: key,
                     kind: PublicTrade { id: id.to_string(), price: 1.0, amount: 1.0, side: Side::Buy },
                 }),
                 Err(e) => Err(market_error(e.id, e.terminal)),
@@ -362,7 +452,7 @@ impl MarketStream<ScriptVenue, ScriptInst, PublicTrades> for MarketConn {
     {
         let i = &subscriptions[0].instrument;
         match attempt(&i.script, i.lat, i.pace, &i.sh).await {
-            Ok(conn) => Ok(MarketConn(conn)),
+            Ok(conn) => Ok(MarketConn(conn, i.key)),
             Err(_) => Err(DataError::Socket("scripted connection attempt failed".into())),
         }
     }
@@ -378,6 +468,126 @@ fn market_obs(e: MarketStreamResult<u32, PublicTrade>) -> Obs {
         Event::Item(Err(DataError::InvalidSequence { prev_last_update_id, .. })) => Obs::Err(prev_last_update_id as u32, true),
         Event::Item(Err(DataError::Socket(s))) => Obs::Err(s.parse().unwrap_or(u32::MAX), false),
         Event::Item(Err(_)) => Obs::Err(u32::MAX, false),
+    }
+}
+
+// ---------------------------------------------------------------------------------------------------
+// Mode::Account: a scripted `ExecutionClient` behind barter's real `ExecutionManager::init`
+// ---------------------------------------------------------------------------------------------------
+
+const ACCOUNT_EXCHANGE: ExchangeId = ExchangeId::BinanceSpot;
+
+/// Attempt k = the k-th call of `account_stream` (stamped like every other attempt) followed by `account_snapshot`.
+/// A failing attempt with odd k fails in `account_stream`, one with even k in `account_snapshot` (at the same
+/// virtual instant). The snapshot of attempt k carries k as its balance, the updates carry their item id.
+#[derive(Clone)]
+pub struct ScriptAcct {
+    sh: Arc<Shared>,
+    script: Arc<Vec<Option<String>>>,
+    lat: u64,
+    pace: u64,
+    fail_snapshot: Arc<AtomicBool>,
+}
+pub struct AcctConn(Conn, AssetNameExchange);
+impl Stream for AcctConn {
+    type Item = UnindexedAccountEvent;
+    fn poll_next(mut self: Pin<&mut Self>, cx: &mut Context<'_>) -> Poll<Option<Self::Item>> {
+        let asset = self.1.clone();
+        Pin::new(&mut self.0).poll_next(cx).map(|o| {
+            o.map(|r| match r {
+                Ok(id) => UnindexedAccountEvent {
+                    exchange: ACCOUNT_EXCHANGE,
+                    kind: AccountEventKind::BalanceSnapshot(Snapshot(account_balance(asset, id))),
+                },
+                Err(e) => unreachable!("account connections are words over I, got {e:?}"),
+            })
+        })
+    }
+}
+fn account_balance(asset: AssetNameExchange, n: u32) -> AssetBalance<AssetNameExchange> {
+    AssetBalance { asset, balance: Balance { total: Decimal::from(n), free: Decimal::from(n) }, time_exchange: chrono::DateTime::UNIX_EPOCH }
+}
+impl ExecutionClient for ScriptAcct {
+    const EXCHANGE: ExchangeId = ExchangeId::Mock;
+    type Config = ScriptAcct;
+    type AccountStream = AcctConn;
+    fn new(config: ScriptAcct) -> Self {
+        config
+    }
+    fn account_snapshot(
+        &self,
+        assets: &[AssetNameExchange],
+        _: &[InstrumentNameExchange],
+    ) -> impl Future<Output = Result<UnindexedAccountSnapshot, UnindexedClientError>> + Send {
+        let k = self.sh.log.lock().unwrap().calls.len() - 1;
+        let r = if self.fail_snapshot.swap(false, Ordering::SeqCst) {
+            Err(UnindexedClientError::AccountSnapshot("scripted snapshot failure".into()))
+        } else {
+            Ok(UnindexedAccountSnapshot { exchange: ACCOUNT_EXCHANGE, balances: vec![account_balance(assets[0].clone(), k as u32)], instruments: vec![] })
+        };
+        std::future::ready(r)
+    }
+    fn account_stream(
+        &self,
+        assets: &[AssetNameExchange],
+        _: &[InstrumentNameExchange],
+    ) -> impl Future<Output = Result<AcctConn, UnindexedClientError>> + Send {
+        let asset = assets[0].clone();
+        let k = self.sh.log.lock().unwrap().calls.len();
+        let fut = attempt(&self.script, self.lat, self.pace, &self.sh);
+        let fail_snapshot = self.fail_snapshot.clone();
+        async move {
+            match fut.await {
+                Ok(conn) => Ok(AcctConn(conn, asset)),
+                Err(_) if k % 2 == 0 => {
+                    // the stream comes up (and is never polled), fetching the snapshot fails
+                    fail_snapshot.store(true, Ordering::SeqCst);
+                    Ok(AcctConn(Conn { conn: k, syms: vec![], pos: 0, pace: 0, sleep: None }, asset))
+                }
+                Err(_) => Err(UnindexedClientError::Connectivity(ConnectivityError::Socket("scripted connection attempt failed".into()))),
+            }
+        }
+    }
+    fn cancel_order(&self, _: OrderRequestCancel<ExchangeId, &InstrumentNameExchange>) -> impl Future<Output = UnindexedOrderResponseCancel> + Send {
+        std::future::pending()
+    }
+    fn open_order(
+        &self,
+        _: OrderRequestOpen<ExchangeId, &InstrumentNameExchange>,
+    ) -> impl Future<Output = Order<ExchangeId, InstrumentNameExchange, Result<Open, UnindexedOrderError>>> + Send {
+        std::future::pending()
+    }
+    async fn fetch_balances(&self) -> Result<Vec<AssetBalance<AssetNameExchange>>, UnindexedClientError> {
+        Ok(vec![])
+    }
+    async fn fetch_open_orders(&self) -> Result<Vec<Order<ExchangeId, InstrumentNameExchange, Open>>, UnindexedClientError> {
+        Ok(vec![])
+    }
+    async fn fetch_trades(&self, _: chrono::DateTime<chrono::Utc>) -> Result<Vec<Trade<QuoteAsset, InstrumentNameExchange>>, UnindexedClientError> {
+        Ok(vec![])
+    }
+}
+fn account_obs(e: AccountStreamEvent) -> Obs {
+    match e {
+        Event::Reconnecting(ex) => Obs::Notice(if ex == ACCOUNT_EXCHANGE { ORIGIN } else { 0 }),
+        Event::Item(ev) => match ev.kind {
+            AccountEventKind::BalanceSnapshot(Snapshot(b)) => Obs::Item(b.balance.total.to_u32().unwrap_or(u32::MAX)),
+            AccountEventKind::Snapshot(s) => match s.balances.first().and_then(|b| b.balance.total.to_usize()) {
+                Some(k) => Obs::Item(id_of(k, SNAP_POS)),
+                None => Obs::Item(u32::MAX),
+            },
+            _ => Obs::Item(u32::MAX),
+        },
+    }
+}
+
+/// Builder modes: two scripted instruments share the exchange channel; the twin's (instrument key 1) ids are
+/// shifted by `TWIN_BASE`.
+fn market_obs_keyed(e: MarketStreamResult<u32, PublicTrade>) -> Obs {
+    let twin = matches!(&e, Event::Item(Ok(ev)) if ev.instrument == 1);
+    match market_obs(e) {
+        Obs::Item(i) if twin => Obs::Item(i + TWIN_BASE),
+        o => o,
     }
 }
 
@@ -433,6 +643,8 @@ struct Observation {
     horizon_hit: bool,
     /// MergedPlain: ids pushed into the side channel
     side_pushed: Vec<u32>,
+    /// Builder modes with `twin`: what the twin connection delivered (ids shifted by `TWIN_BASE`)
+    twin_outputs: Vec<Obs>,
 }
 
 enum Subject {
@@ -453,7 +665,7 @@ fn execute(case: &Case) -> Observation {
     let fw = Arc::new(FwdWaker { flag: AtomicBool::new(true), outer: Mutex::new(None) });
     let waker = std::task::Waker::from(fw.clone());
     rt.block_on(async {
-        let sh = Arc::new(Shared { t0: Instant::now(), log: Mutex::new(Log::default()) });
+        let sh = Arc::new(Shared { t0: Instant::now(), log: Mutex::new(Log::default()), poke: Mutex::new(None) });
         let key = StreamKey::new_general("c12", ExchangeId::Mock);
         let policy = ReconnectionBackoffPolicy::new(case.policy.0, case.policy.1, case.policy.2);
         let hz = horizon(case);
@@ -470,6 +682,59 @@ fn execute(case: &Case) -> Observation {
             let subs = vec![Subscription::new(ScriptVenue, inst, PublicTrades)];
             let stream = init_market_stream(policy, subs).await.expect("scripts start with a successful attempt");
             return drive(case, &sh, &fw, &waker, Subject::S(Box::pin(stream.map(market_obs))), None, None).await;
+        }
+        if matches!(case.mode, Mode::Builder | Mode::MultiBuilder) {
+            // (the builder's policy is the crate's constant; the case records it so that the judge reads it there)
+            assert_eq!(policy, STREAM_RECONNECTION_POLICY, "builder cases carry the crate's constant policy");
+            *sh.poke.lock().unwrap() = Some(waker.clone());
+            let inst = |key: u32, sh: &Arc<Shared>, script: &[Option<String>]| ScriptInst {
+                sh: sh.clone(),
+                script: Arc::new(script.to_vec()),
+                lat: case.lat,
+                pace: if key == 0 { case.pace } else { TWIN_PACE },
+                key,
+                kind: MarketDataInstrumentKind::Spot,
+            };
+            let mut builder = Streams::<PublicTrades>::builder::<u32, PublicTrades>()
+                .subscribe([Subscription::new(ScriptVenue, inst(0, &sh, &case.script), PublicTrades)]);
+            // a second `subscribe` for the same exchange (its own connection, the same exchange channel)
+            let twin_sh = Arc::new(Shared { t0: sh.t0, log: Mutex::new(Log::default()), poke: Mutex::new(None) });
+            if case.twin {
+                builder = builder.subscribe([Subscription::new(ScriptVenue, inst(1, &twin_sh, &twin_script()), PublicTrades)]);
+            }
+            let stream: Pin<Box<dyn Stream<Item = MarketStreamResult<u32, PublicTrade>> + Send>> = if case.mode == Mode::Builder {
+                Box::pin(builder.init().await.expect("scripts start with a successful attempt").select_all())
+            } else {
+                let multi = Streams::<MarketStreamResult<u32, PublicTrade>>::builder_multi().add(builder);
+                Box::pin(multi.init().await.expect("scripts start with a successful attempt").select_all())
+            };
+            let mut o = drive(case, &sh, &fw, &waker, Subject::S(Box::pin(stream.map(market_obs_keyed))), None, None).await;
+            // the twin connection's outputs are judged on their own (see `judge_generic`)
+            let (twin, own): (Vec<_>, Vec<_>) = o.outputs.drain(..).partition(|x| matches!(&x.1, Obs::Item(i) if *i >= TWIN_BASE));
+            o.outputs = own;
+            o.twin_outputs = twin.into_iter().map(|x| x.1).collect();
+            return o;
+        }
+        if case.mode == Mode::Account {
+            let instruments = IndexedInstruments::builder()
+                .add_instrument(super::common::spot(ACCOUNT_EXCHANGE, "b_btc_usdt", "BTCUSDT", "btc", "usdt"))
+                .add_instrument(super::common::spot(ExchangeId::Kraken, "k_btc_usdt", "XBT/USDT", "btc", "usdt"))
+                .build();
+            let map = generate_execution_instrument_map(&instruments, ACCOUNT_EXCHANGE).expect("execution instrument map");
+            let client = ScriptAcct {
+                sh: sh.clone(),
+                script: Arc::new(case.script.clone()),
+                lat: case.lat,
+                pace: case.pace,
+                fail_snapshot: Arc::new(AtomicBool::new(false)),
+            };
+            let requests = futures::stream::pending::<ExecutionRequest<ExchangeIndex, InstrumentIndex>>();
+            // (the manager owns the response channel that is merged into the account stream: it is kept alive, as a
+            // running system does, for the whole observation)
+            let (_manager, stream) = ExecutionManager::init(requests, Duration::from_secs(1), Arc::new(client), AccountEventIndexer::new(Arc::new(map)), policy)
+                .await
+                .expect("scripts start with a successful attempt");
+            return drive(case, &sh, &fw, &waker, Subject::S(Box::pin(stream.map(account_obs))), None, None).await;
         }
         // attempt 0 is awaited by init_reconnecting_stream itself (its latency elapses by auto-advance)
         let base = init_reconnecting_stream(make_init(case, sh.clone())).await;
@@ -500,7 +765,7 @@ fn execute(case: &Case) -> Observation {
         };
         let mut rx = None;
         let subject = match case.mode {
-            Mode::MergedPlain | Mode::Market => unreachable!(),
+            Mode::MergedPlain | Mode::Market | Mode::Account | Mode::Builder | Mode::MultiBuilder => unreachable!(),
             Mode::Pass => Subject::S(Box::pin(events.map(to_obs))),
             Mode::Handler => Subject::S(Box::pin(events.with_error_handler(handler).map(obs_of))),
             Mode::ForwardChan => {
@@ -672,6 +937,11 @@ fn expected(case: &Case, errors_in_output: bool) -> (Vec<Tok>, Vec<Tok>) {
     let mut handled = Vec::new();
     for (c, a) in case.script.iter().enumerate() {
         let Some(word) = a else { continue };
+        if case.mode == Mode::Account {
+            // "every item of each successfully initialised connection": the manager's connection is the account
+            // snapshot followed by the account stream
+            out.push(Tok::Must(Obs::Item(id_of(c, SNAP_POS))));
+        }
         for (p, s) in word.bytes().enumerate() {
             let id = id_of(c, p);
             // (the flag of `Obs::Err` is the symbol class: false = R, true = T)
@@ -705,8 +975,8 @@ fn expected(case: &Case, errors_in_output: bool) -> (Vec<Tok>, Vec<Tok>) {
 /// asked about the two errors the symbols are rendered as.
 fn sym_terminal(case: &Case, s: u8) -> bool {
     match case.mode {
-        Mode::MergedPlain => false,
-        Mode::Market => market_error(0, s == b'T').is_terminal(),
+        Mode::MergedPlain | Mode::Account => false,
+        Mode::Market | Mode::Builder | Mode::MultiBuilder => market_error(0, s == b'T').is_terminal(),
         _ => s == b'T',
     }
 }
@@ -857,7 +1127,8 @@ fn judge_generic(case: &Case, o: &Observation) -> Vec<Viol> {
 
     // R-delivery: items once, in order, up to end / first terminal error; one notice per ended connection
     // before anything of the next; recoverable errors passed through; failed attempts deliver nothing.
-    let (exp, exp_handled) = expected(case, matches!(case.mode, Mode::Pass | Mode::MergedPlain | Mode::Market));
+    let errors_in_output = !matches!(case.mode, Mode::Handler | Mode::ForwardChan | Mode::ForwardScript);
+    let (exp, exp_handled) = expected(case, errors_in_output);
     let outs: Vec<Obs> = o.outputs.iter().map(|x| x.1.clone()).collect();
     let stopped_by_failed_send = case.mode == Mode::ForwardScript && failed_send.is_some();
     let (side, outs): (Vec<Obs>, Vec<Obs>) = outs.into_iter().partition(|x| matches!(x, Obs::Item(i) if *i >= SIDE_BASE));
@@ -883,8 +1154,26 @@ fn judge_generic(case: &Case, o: &Observation) -> Vec<Viol> {
         }
     }
 
+    // a second connection forwarded into the same exchange channel (builder modes): its items arrive in order, each
+    // exactly once, next to whatever the main connection does; it produced its first item `TWIN_PACE` ms after it
+    // came up, so a run that lasted longer has seen at least one
+    if case.twin {
+        let want: Vec<Obs> = (0..o.twin_outputs.len() as u32).map(|i| Obs::Item(TWIN_BASE + i)).collect();
+        if o.twin_outputs != want {
+            v.push((
+                "C12/delivery/second-connection-of-the-exchange/not-in-order-exactly-once".into(),
+                format!("the twin connection yields items {TWIN_BASE}+0,1,2,...; the exchange channel delivered {:?}", o.twin_outputs),
+            ));
+        } else if o.twin_outputs.is_empty() && o.stop > 2 * case.lat + 2 * TWIN_PACE {
+            v.push((
+                "C12/delivery/second-connection-of-the-exchange/nothing-delivered".into(),
+                format!("the twin connection has been yielding an item every {TWIN_PACE} ms, none arrived by {} ms", o.stop),
+            ));
+        }
+    }
+
     // R-handler: recoverable errors are handed to the handler (exactly once, in order)
-    if !matches!(case.mode, Mode::Pass | Mode::MergedPlain | Mode::Market) {
+    if !errors_in_output {
         let h: Vec<Obs> = o.handled.iter().map(|(i, t)| Obs::Err(*i, *t)).collect();
         if let Some((cause, detail)) = match_seq(case, &exp_handled, &h, complete) {
             let cause = match cause.split('-').next().unwrap_or("") {
@@ -1075,8 +1364,8 @@ fn run_case(ctx: &Ctx, case: &Case, t: &Tally) {
     for (sig, detail) in judge(case, &o) {
         // `Market` executions run after the generic ones (see `run`): a rule already broken by the generic
         // combinators is that defect again, not a defect of `init_market_stream`
-        if case.mode == Mode::Market {
-            if t.generic_sigs.lock().unwrap().contains(sig.trim_end_matches("/init_market_stream")) {
+        if let Some(suffix) = composition_suffix(case.mode) {
+            if t.generic_sigs.lock().unwrap().contains(sig.trim_end_matches(suffix)) {
                 continue;
             }
         } else {
@@ -1086,13 +1375,23 @@ fn run_case(ctx: &Ctx, case: &Case, t: &Tally) {
     }
 }
 
+fn composition_suffix(mode: Mode) -> Option<&'static str> {
+    match mode {
+        Mode::Market => Some("/init_market_stream"),
+        Mode::Account => Some("/ExecutionManager::init"),
+        Mode::Builder => Some("/StreamBuilder"),
+        Mode::MultiBuilder => Some("/MultiStreamBuilder"),
+        _ => None,
+    }
+}
+
 /// `judge` + the composition as part of the signature where it is not the generic one: a rule broken only by
 /// barter-data's `init_market_stream` composition is a different defect from one in the generic combinators.
 fn judge(case: &Case, o: &Observation) -> Vec<Viol> {
     let mut v = judge_generic(case, o);
-    if case.mode == Mode::Market {
+    if let Some(suffix) = composition_suffix(case.mode) {
         for x in &mut v {
-            x.0.push_str("/init_market_stream");
+            x.0.push_str(suffix);
         }
     }
     v
@@ -1293,7 +1592,7 @@ fn merge_exec(ch: &mut Chooser, variant: usize, depth: usize, out: &mut Vec<Viol
 /// `Pending` is woken when the next item is pushed.
 fn forward_exec(ch: &mut Chooser, variant: usize, depth: usize, out: &mut Vec<Viol>) -> (u64, bool) {
     let (src_tx, src_rx) = mpsc_unbounded::<u32>();
-    let sh = Arc::new(Shared { t0: Instant::now(), log: Mutex::new(Log::default()) });
+    let sh = Arc::new(Shared { t0: Instant::now(), log: Mutex::new(Log::default()), poke: Mutex::new(None) });
     let mut rx = None;
     let mut fail_at = usize::MAX;
     let mut fut: Pin<Box<dyn Future<Output = ()> + Send>> = if variant == 0 {
@@ -1439,6 +1738,163 @@ impl Tx for NumTx {
 }
 
 // =====================================================================================================
+// Layer 4: barter-data's `DynamicStreams::init` arms (Binance connectors) against a scripted venue on loopback
+// =====================================================================================================
+//
+// Every (exchange, kind) arm of `DynamicStreams::init` is its own copy of "init_market_stream(constant policy,
+// re-wrapped subscriptions) -> tokio::spawn(stream.forward_to(channel of that exchange and kind))". The arms open
+// WebSocket connections, so they can only be driven where a connector's URL can be pointed at loopback: the
+// Binance connectors (`--cfg barter_rs_barter_rs_verif`, env BARTER_VERIF_BINANCE_WS_URL). Real sockets, real
+// clock - therefore no wait is measured here, only what arrives at `DynamicStreams::select_trades(exchange)`.
+//
+// Script: connection 1 = confirm the subscription, trades 1, 2, a payload that is no trade (-> a non-terminal error
+// item), trade 3, close; then one connection attempt that is dropped before the WebSocket handshake (a failed
+// re-initialisation); connection 2 = confirm, trade 4, held open.
+// Oracle (statement): trades 1,2,3 then 4 in order, exactly once; the non-terminal error is passed through between 2
+// and 3 and does not end the connection (no notice before trade 3); exactly one notice, naming the arm's exchange,
+// between trade 3 and trade 4 (the failed attempt adds none and delivers nothing). Error items caused by the venue
+// closing connection 1 (after trade 3, before the notice) are accepted in any number.
+
+const DYNAMIC_ARMS: [(ExchangeId, &str); 2] = [(ExchangeId::BinanceSpot, "spot"), (ExchangeId::BinanceFuturesUsd, "perpetual")];
+
+fn dynamic_trade_json(futures: bool, id: u64) -> String {
+    if futures {
+        json!({"e": "trade", "E": 1649839266194u64 + id, "T": 1749354825200u64 + id, "s": "BTCUSDT", "t": id, "p": "10000.19", "q": "0.239000", "X": "MARKET", "m": true}).to_string()
+    } else {
+        json!({"e": "trade", "E": 1649324825173u64 + id, "s": "BTCUSDT", "t": id, "p": "10000.19", "q": "0.239000", "b": 10108767791u64, "a": 10108764858u64, "T": 1749354825200u64 + id, "m": false, "M": true}).to_string()
+    }
+}
+
+/// Runs one arm; returns the trace of what arrived, or Err(machinery trouble).
+fn dynamic_exec(arm: usize, out: &mut Vec<Viol>) -> Result<Vec<String>, String> {
+    use barter_data::{streams::builder::dynamic::DynamicStreams, subscription::SubKind};
+    use barter_instrument::instrument::market_data::MarketDataInstrument;
+    use futures::SinkExt;
+    let (exchange, kind_name) = DYNAMIC_ARMS[arm];
+    let futures_arm = exchange == ExchangeId::BinanceFuturesUsd;
+    let rt = tokio::runtime::Builder::new_current_thread().enable_all().build().map_err(|e| e.to_string())?;
+    rt.block_on(async {
+        let listener = tokio::net::TcpListener::bind("127.0.0.1:0").await.map_err(|e| format!("bind: {e}"))?;
+        let port = listener.local_addr().map_err(|e| e.to_string())?.port();
+        // SAFETY: single writer; the worker threads of the harness do not read the environment at this point.
+        unsafe { std::env::set_var("BARTER_VERIF_BINANCE_WS_URL", format!("ws://127.0.0.1:{port}")) };
+        let server = tokio::spawn(async move {
+            let mut n = 0usize;
+            loop {
+                let (stream, _) = listener.accept().await.map_err(|e| format!("accept: {e}"))?;
+                n += 1;
+                if n == 2 {
+                    drop(stream); // a failed re-initialisation attempt
+                    continue;
+                }
+                let mut ws = tokio_tungstenite::accept_async(stream).await.map_err(|e| format!("ws accept: {e}"))?;
+                let req = ws.next().await.ok_or("no subscribe request")?.map_err(|e| format!("ws read: {e}"))?;
+                let req_text = req.into_text().map_err(|e| e.to_string())?.to_string();
+                if !req_text.contains("btcusdt@trade") {
+                    return Err(format!("unexpected subscribe request {req_text}"));
+                }
+                let text = |t: String| tokio_tungstenite::tungstenite::Message::text(t);
+                ws.send(text(r#"{"result":null,"id":1}"#.to_string())).await.map_err(|e| e.to_string())?;
+                if n == 1 {
+                    for m in [dynamic_trade_json(futures_arm, 1), dynamic_trade_json(futures_arm, 2), r#"{"e":"trade","this":"is no trade"}"#.to_string(), dynamic_trade_json(futures_arm, 3)] {
+                        ws.send(text(m)).await.map_err(|e| e.to_string())?;
+                    }
+                    let _ = ws.close(None).await;
+                    while let Some(Ok(_)) = ws.next().await {}
+                } else {
+                    // (later connections, should the subject re-initialise more often than scripted, get trade 4 too)
+                    let _ = ws.send(text(dynamic_trade_json(futures_arm, 4))).await;
+                    while let Some(Ok(_)) = ws.next().await {}
+                }
+            }
+            #[allow(unreachable_code)]
+            Ok::<(), String>(())
+        });
+        let client = async {
+            let kind = if futures_arm { MarketDataInstrumentKind::Perpetual } else { MarketDataInstrumentKind::Spot };
+            let sub: Subscription<ExchangeId, MarketDataInstrument, SubKind> = Subscription::new(exchange, MarketDataInstrument::from(("btc", "usdt", kind)), SubKind::PublicTrades);
+            let mut streams = tokio::time::timeout(Duration::from_secs(30), DynamicStreams::init([[sub]]))
+                .await
+                .map_err(|_| "DynamicStreams::init timed out".to_string())?
+                .map_err(|e| format!("DynamicStreams::init failed (is the harness built with --cfg barter_rs_barter_rs_verif?): {e}"))?;
+            let mut trades = streams.select_trades(exchange).ok_or("no trades stream for the arm's exchange")?;
+            let mut trace: Vec<String> = Vec::new();
+            let sig = |cause: &str| format!("C12/delivery/{cause}/DynamicStreams");
+            // `expect`: the id of the next trade; notices seen so far
+            let (mut expect, mut notices, mut errors_between_2_and_3) = (1u64, 0u32, 0u32);
+            loop {
+                let next = match tokio::time::timeout(Duration::from_secs(30), trades.next()).await {
+                    Err(_) => {
+                        // nothing for 30 s although the venue serves connections: what is missing?
+                        let cause = if expect <= 3 { "lost-item" } else if notices == 0 { "lost-notice" } else { "lost-item" };
+                        out.push((sig(cause), format!("{exchange} {kind_name}: nothing arrived for 30 s while waiting for trade {expect}; arrived {trace:?}")));
+                        break;
+                    }
+                    Ok(None) => {
+                        out.push(("C12/never-ends/stream-returned-none/DynamicStreams".into(), format!("{exchange} {kind_name}: the trades stream ended; arrived {trace:?}")));
+                        break;
+                    }
+                    Ok(Some(e)) => e,
+                };
+                match next {
+                    Event::Reconnecting(ex) => {
+                        trace.push(format!("notice({ex})"));
+                        notices += 1;
+                        if ex != exchange {
+                            out.push((sig("notice-with-wrong-origin"), format!("{exchange} {kind_name}: arrived {trace:?}")));
+                            break;
+                        }
+                        if expect <= 3 {
+                            let cause = if errors_between_2_and_3 > 0 { "notice-before-connection-end/after-recoverable-error" } else { "notice-before-connection-end" };
+                            out.push((sig(cause), format!("{exchange} {kind_name}: a notice although connection 1 has not delivered trade {expect} yet; arrived {trace:?}")));
+                            break;
+                        }
+                        if notices > 1 {
+                            out.push((sig("spurious-notice"), format!("{exchange} {kind_name}: one connection ended, one attempt failed, {notices} notices; arrived {trace:?}")));
+                            break;
+                        }
+                    }
+                    Event::Item(Ok(ev)) => {
+                        let id: u64 = ev.kind.id.parse().unwrap_or(u64::MAX);
+                        trace.push(format!("trade({id})"));
+                        if id != expect {
+                            let cause = if id < expect { "duplicate-item" } else if expect == 4 && notices == 0 { "lost-notice" } else { "lost-item" };
+                            out.push((sig(cause), format!("{exchange} {kind_name}: trade {id} arrived, the next one is {expect}; arrived {trace:?}")));
+                            break;
+                        }
+                        if id == 3 && errors_between_2_and_3 == 0 {
+                            out.push((sig("lost-recoverable-error"), format!("{exchange} {kind_name}: the payload between trades 2 and 3 is no trade, no error item was passed through; arrived {trace:?}")));
+                            break;
+                        }
+                        if id == 4 && notices == 0 {
+                            out.push((sig("lost-notice"), format!("{exchange} {kind_name}: trade 4 belongs to the second connection, no notice preceded it; arrived {trace:?}")));
+                            break;
+                        }
+                        expect += 1;
+                        if id == 4 {
+                            break; // script complete
+                        }
+                    }
+                    Event::Item(Err(e)) => {
+                        trace.push(format!("error({})", if e.is_terminal() { "terminal" } else { "non-terminal" }));
+                        if expect == 3 {
+                            errors_between_2_and_3 += 1;
+                        }
+                    }
+                }
+                if trace.len() > 40 {
+                    return Err(format!("runaway stream; arrived {trace:?}"));
+                }
+            }
+            Ok::<_, String>(trace)
+        };
+        let trace = client.await;
+        server.abort();
+        trace
+    })
+}
+
+// =====================================================================================================
 // run / replay
 // =====================================================================================================
 
@@ -1496,6 +1952,7 @@ pub fn run(ctx: &Ctx) -> Outcome {
         mode,
         fail_at,
         extra,
+        twin: false,
     };
 
     // determinism self-check: a fixed sample of cases executed twice must give identical observations
@@ -1568,12 +2025,68 @@ pub fn run(ctx: &Ctx) -> Outcome {
         }));
     }
 
+    // barter's account-stream composition (`ExecutionManager::init` over a scripted `ExecutionClient`): connections are
+    // words over {I} (the account stream carries no error items), every policy, every timing
+    {
+        let ws: Vec<String> = (0..=if thorough { 3 } else { 2 }).map(|l| "I".repeat(l)).collect();
+        let n_max = if thorough { 5 } else { 4 };
+        let before = (tally.scripts.load(Ordering::Relaxed), tally.evals.load(Ordering::Relaxed));
+        for n in 1..=n_max {
+            (0..script_count(n, ws.len())).into_par_iter().for_each(|i| {
+                let script = script_at(n, &ws, i);
+                tally.scripts.fetch_add(1, Ordering::Relaxed);
+                for policy in &p6 {
+                    for timing in &t3 {
+                        run_case(ctx, &mk(&script, *policy, *timing, Mode::Account, None), &tally);
+                    }
+                }
+            });
+        }
+        block_report.push(json!({
+            "max_attempts": n_max, "connection_words": ws,
+            "policies_(initial_ms,multiplier,max_ms)": p6, "timings_(init_latency_ms,pace_ms)": t3, "modes": [Mode::Account],
+            "scripts_(again,_for_this_mode)": tally.scripts.load(Ordering::Relaxed) - before.0,
+            "executions": tally.evals.load(Ordering::Relaxed) - before.1,
+        }));
+    }
+    // barter-data's public entry (`Streams::builder().subscribe(..).init()`, also added to `builder_multi()`): the
+    // policy is the crate's constant; with and without a second `subscribe` for the same exchange
+    let builder_policy = (STREAM_RECONNECTION_POLICY.backoff_ms_initial, STREAM_RECONNECTION_POLICY.backoff_multiplier, STREAM_RECONNECTION_POLICY.backoff_ms_max);
+    {
+        let ws = words(2);
+        let n_max = if thorough { 3 } else { 2 };
+        let before = (tally.scripts.load(Ordering::Relaxed), tally.evals.load(Ordering::Relaxed));
+        let mut scripts: Vec<Vec<Option<String>>> = (1..=n_max).flat_map(|n| scripts_n(n, &ws)).collect();
+        // + failures between two connections (the waits of the constant policy, reset after the success)
+        scripts.push(vec![Some("IR".to_string()), None, None, Some("RI".to_string())]);
+        scripts.push(vec![Some("T".to_string()), None, Some("".to_string()), None, None, Some("I".to_string())]);
+        scripts.par_iter().for_each(|script| {
+            tally.scripts.fetch_add(1, Ordering::Relaxed);
+            for timing in &t3 {
+                for mode in [Mode::Builder, Mode::MultiBuilder] {
+                    for twin in [false, true] {
+                        let mut c = mk(script, builder_policy, *timing, mode, None);
+                        c.twin = twin;
+                        run_case(ctx, &c, &tally);
+                    }
+                }
+            }
+        });
+        block_report.push(json!({
+            "max_attempts": n_max, "max_word_len": 2, "plus_scripts_with_failures": 2,
+            "policies_(initial_ms,multiplier,max_ms)": [builder_policy], "timings_(init_latency_ms,pace_ms)": t3, "modes": [Mode::Builder, Mode::MultiBuilder],
+            "second_subscribe_for_the_same_exchange": [false, true],
+            "scripts_(again,_for_these_modes)": tally.scripts.load(Ordering::Relaxed) - before.0,
+            "executions": tally.evals.load(Ordering::Relaxed) - before.1,
+        }));
+    }
+
     // Long runs (length-dependent behaviour: counters, exponent arithmetic, attempt limits, buffers): long failure
     // runs (the wait must stay at the maximum, the stream must not give up), many connections, one long connection.
     let long_before = tally.evals.load(Ordering::Relaxed);
     let long_cases: Vec<Case> = {
         let mut v = Vec::new();
-        let all5 = [Mode::Pass, Mode::Handler, Mode::ForwardChan, Mode::MergedPlain, Mode::Market];
+        let all5 = [Mode::Pass, Mode::Handler, Mode::ForwardChan, Mode::MergedPlain, Mode::Market, Mode::Account];
         let big: [(u64, u8, u64); 2] = [(125, 2, 60_000), (40_000, 2, 100_000)];
         for k in if thorough { vec![70usize, 300, 1100] } else { vec![70, 300] } {
             let mut script = vec![Some("I".to_string())];
@@ -1610,16 +2123,33 @@ pub fn run(ctx: &Ctx) -> Outcome {
             for policy in &p4[..2] {
                 for timing in [(0u64, 0u64), (2, 1)] {
                     for mode in all5 {
+                        // (account connections are words over I)
+                        if mode == Mode::Account && script.iter().flatten().any(|w| w.bytes().any(|b| b != b'I')) {
+                            continue;
+                        }
                         v.push(mk(&script, *policy, timing, mode, None));
                     }
                 }
             }
         }
+        // a policy whose waits exceed 2^32 ms (the configured waits are u64 milliseconds); few failures only: the
+        // virtual clock's timer wheel spans 2^36 ms
+        for mode in [Mode::Pass, Mode::Handler, Mode::ForwardChan, Mode::Market, Mode::Account] {
+            let script = vec![Some("I".to_string()), None, None, None, Some("I".to_string())];
+            v.push(mk(&script, (2_500_000_000, 2, 4_500_000_000), (7, 0), mode, None));
+        }
+        // the builder path through a long failure run (its constant policy reaches the 60 s cap after 10 failures)
+        for mode in [Mode::Builder, Mode::MultiBuilder] {
+            let mut script = vec![Some("I".to_string())];
+            script.extend(std::iter::repeat(None).take(70));
+            script.push(Some("I".to_string()));
+            v.push(mk(&script, builder_policy, (7, 0), mode, None));
+        }
         v
     };
     // (generic compositions first, then `Market`: see `run_case`)
-    long_cases.par_iter().filter(|c| c.mode != Mode::Market).for_each(|c| run_case(ctx, c, &tally));
-    long_cases.par_iter().filter(|c| c.mode == Mode::Market).for_each(|c| run_case(ctx, c, &tally));
+    long_cases.par_iter().filter(|c| composition_suffix(c.mode).is_none()).for_each(|c| run_case(ctx, c, &tally));
+    long_cases.par_iter().filter(|c| composition_suffix(c.mode).is_some()).for_each(|c| run_case(ctx, c, &tally));
     let long_execs = tally.evals.load(Ordering::Relaxed) - long_before;
 
     for (script, policy, timing, mode) in [
@@ -1696,21 +2226,45 @@ pub fn run(ctx: &Ctx) -> Outcome {
     }
     let fwd_execs: u64 = fwd_stats.iter().map(|s| s["schedules"].as_u64().unwrap()).sum();
 
+    // ---------------- layer 4: DynamicStreams arms on loopback ----------------
+    let mut dynamic_traces = Vec::new();
+    for arm in 0..DYNAMIC_ARMS.len() {
+        let mut out = Vec::new();
+        match dynamic_exec(arm, &mut out) {
+            Ok(trace) => dynamic_traces.push(json!({"arm": format!("{} PublicTrades", DYNAMIC_ARMS[arm].0), "arrived": trace})),
+            // a loopback layer that cannot complete is a machinery failure - unless violations were already recorded
+            Err(e) if ctx.violations.len() > 0 || !out.is_empty() => dynamic_traces.push(json!({"arm": format!("{} PublicTrades", DYNAMIC_ARMS[arm].0), "not_completed": e})),
+            Err(e) => {
+                eprintln!("MACHINERY: C12 DynamicStreams loopback layer failed: {e}");
+                std::process::exit(2);
+            }
+        }
+        for (sig, detail) in out {
+            ctx.violate(sig, detail, json!({"layer": "dynamic", "arm": arm}));
+        }
+    }
+    let dynamic_execs = DYNAMIC_ARMS.len() as u64;
+
     let distinct = tally.distinct.len() + merge_distinct.len() + fwd_distinct.len();
     Outcome {
         level: "exploration",
         coverage: json!({
-            "evaluations": reconnect_all + merge_execs + fwd_execs,
+            "evaluations": reconnect_all + merge_execs + fwd_execs + dynamic_execs,
+            "dynamic_streams_loopback": {
+                "what": "real DynamicStreams::init arms (BinanceSpot PublicTrades, BinanceFuturesUsd PublicTrades) against a scripted venue on loopback, real sockets and clock (no wait is measured): connection 1 = trades 1,2, a payload that is no trade, trade 3, close; one attempt dropped before the handshake; connection 2 = trade 4; read at DynamicStreams::select_trades",
+                "executions": dynamic_execs,
+                "arrived": dynamic_traces,
+            },
             "distinct_nontrivial": distinct,
             "exhaustive": true,
-            "rule": "E-ENV: every connection script within the bounds x backoff policy x timing x observation mode executed on the real init_reconnecting_stream/with_reconnect_backoff/with_termination_on_error/with_reconnection_events(/with_error_handler/forward_to) composition - and on barter-data's own init_market_stream over a scripted Connector/MarketStream - under a paused tokio clock (subject polled by hand with the harness' waker; the virtual clock jumps from timer deadline to timer deadline; every output and init call stamped), compared with the trace the statement allows; all interleavings of push/close/poll for merge and of push/close/poll/drop-receiver for forward_to",
+            "rule": "E-ENV: every connection script within the bounds x backoff policy x timing x observation mode executed on the real init_reconnecting_stream/with_reconnect_backoff/with_termination_on_error/with_reconnection_events(/with_error_handler/forward_to) composition - and on barter-data's own init_market_stream over a scripted Connector/MarketStream, on barter's ExecutionManager::init account stream over a scripted ExecutionClient, and on barter-data's StreamBuilder / MultiStreamBuilder (spawned forward_to into the exchange channel, read at Streams::select_all) - under a paused tokio clock (subject polled by hand with the harness' waker; the virtual clock jumps from timer deadline to timer deadline; every output and init call stamped), compared with the trace the statement allows; all interleavings of push/close/poll for merge and of push/close/poll/drop-receiver for forward_to",
             "reconnect": {
                 "scripts": tally.scripts.load(Ordering::Relaxed),
                 "blocks": block_report,
                 "failing_attempts_observed_after_script": extra,
                 "long_runs": {
                     "executions": long_execs,
-                    "what": "[ok, k failures, ok] for k in 70, 300 (thorough: + 1100) x 8 policies incl. (125,2,60000) and (40000,2,100000) x init latency 0/7 x 5 modes; 300 (1200) connections with failures in between; one connection of 1500 (6000) symbols with and without a terminal error - x 2 policies x 2 timings x 5 modes",
+                    "what": "[ok, k failures, ok] for k in 70, 300 (thorough: + 1100) x 8 policies incl. (125,2,60000) and (40000,2,100000) x init latency 0/7 x 6 modes (incl. Account); [ok, 3 failures, ok] with the policy (2500000000,2,4500000000) whose waits exceed 2^32 ms x 5 modes; [ok, 70 failures, ok] through StreamBuilder / MultiStreamBuilder; 300 (1200) connections with failures in between; one connection of 1500 (6000) symbols with and without a terminal error - x 2 policies x 2 timings x 5 modes",
                 },
                 "executions_main": reconnect_main,
                 "executions_forward_failing_tx": reconnect_all - reconnect_main,
@@ -1738,6 +2292,9 @@ pub fn run(ctx: &Ctx) -> Outcome {
             "connections are finite words over {item, recoverable error, terminal error} followed by end-of-stream; all attempts after the script fail".into(),
             "the statement is silent on (a) whether the terminal error itself is passed on, (b) the delay between a dropped connection and the next attempt, (c) ready items of the other merge input when one input ends, (d) whether forward_to stops after a failed send: all accepted, (c) and (d) counted as informational".into(),
             "merge / forward_to inputs are barter_integration mpsc_unbounded channels; a 'poll' is repeated while the subject wakes itself; wake-ups are synchronous with the push / close that causes them (no runtime is involved in layers 2 and 3)".into(),
+            "Account mode: the connection the manager initialises is the account snapshot followed by the account stream, so the snapshot is the first item of every connection; a failing attempt fails in account_stream (odd attempts) or in account_snapshot (even attempts); account connections carry no error items; the notice names the ExchangeId of the instrument map".into(),
+            "Builder modes: the configured policy is the crate's constant STREAM_RECONNECTION_POLICY; the reconnecting stream runs in the task the builder spawns (on the paused current-thread runtime), the harness reads the exchange channel; the second subscription's connection yields an item every 50 virtual ms for longer than the observation lasts (errors and notices name only the exchange and could not be attributed, so it has none)".into(),
+            "DynamicStreams layer: only the arms of connectors whose URL can be pointed at loopback (Binance, cfg hook) and that need no REST snapshot are driven (2 of 21); real sockets and clock, so only order / multiplicity of what arrives is judged; error items caused by the venue closing a connection are accepted in any number".into(),
             "Market mode: which DataErrors are terminal is not part of the statement - the real DataError::is_terminal is asked about the two errors the script symbols are rendered as (Socket, InvalidSequence); a rule broken in Market mode only is reported with the suffix /init_market_stream".into(),
         ],
     }
@@ -1763,6 +2320,21 @@ pub fn replay(ctx: &Ctx, case: &Value) {
                 merge_exec(&mut ch, variant, depth, &mut out);
             } else {
                 forward_exec(&mut ch, variant, depth, &mut out);
+            }
+            for (sig, detail) in out {
+                ctx.violate(sig, detail, case.clone());
+            }
+        }
+        "dynamic" => {
+            let arm = case["arm"].as_u64().unwrap_or(0) as usize;
+            let mut out = Vec::new();
+            match dynamic_exec(arm, &mut out) {
+                Ok(trace) => println!("arrived: {trace:?}"),
+                Err(e) if !out.is_empty() => println!("not completed: {e}"),
+                Err(e) => {
+                    eprintln!("MACHINERY: {e}");
+                    std::process::exit(2);
+                }
             }
             for (sig, detail) in out {
                 ctx.violate(sig, detail, case.clone());
